@@ -191,7 +191,10 @@ class Model:
             ev = self.timeout(op["d"], op.get("value"))
             done = ("timeout-", op["d"])
         elif kind == "native":
-            ev = self.timeout(op["d"], None, "native:%r" % op["d"])
+            ev = Ev("native:%r" % op["d"])
+            ok, value = ("raises" not in op), op.get("raises", op.get("value"))
+            ev.defused = True            # a yielded coroutine's failure goes to the process only
+            self.at(self.now + op["d"], lambda: self.trigger(ev, ok, value))
             done = ("native-", op["d"])
         elif kind == "wait":
             ev = self.events[op["ev"]]
